@@ -56,6 +56,12 @@ def draw_cfg(rng, profile, tier):
         'readers': int(rng.random() < p.get('p_readers', 0.6)),
         'faults': rng.choice(p.get('faults', ['none', 'none', 'F1', 'F2',
                                               'F6', 'all'])),
+        'fault_rate': rng.choice([0.12, 0.12, 0.3, 0.5]),
+        # a caller's habit: one read-only look at the table after every
+        # operation on it (what that accessor leaves or remembers is then in
+        # place before every later operation)
+        'habit': rng.choice([None, None, None, None, 'nnz', 'repr', 'eqself',
+                             'flip']),
         'md_rate': rng.choice([0.0, 0.5, 1.0]),
         'sparsity': rng.choice([0.2, 0.5, 0.8, 1.0]),
     }
@@ -125,6 +131,8 @@ class Gen:
         self.after_fault = None
         self.reobserve = None
         self.last_obs = {}
+        self.boost = False
+        self.habit_due = None
 
     # ---------------------------------------------------------- pieces --
     def ev_new(self, w):
@@ -193,13 +201,18 @@ class Gen:
 
     def _fault(self, n):
         f = self.cfg['faults']
-        if f in ('F1', 'all') and self.rng.random() < 0.12:
+        rate = self.cfg.get('fault_rate', 0.12)
+        if f in ('F1', 'all') and self.rng.random() < (
+                max(0.3, rate) if self.boost else rate):
             return self.rng.randrange(0, n + 1)
         return None
 
     def _unk(self):
         f = self.cfg['faults']
-        if f in ('F2', 'all') and self.rng.random() < 0.12:
+        # faults are placed where in-flight state exists: more of them while
+        # a lazily evaluated reader is suspended
+        if f in ('F2', 'all') and self.rng.random() < (
+                0.4 if self.boost else 0.12):
             return self.rng.randrange(1, 40)      # which look-alike id
         return 0
 
@@ -260,7 +273,7 @@ class Gen:
             ev.update(perm=code, form=rng.randrange(3), unk=self._unk(),
                       salt=rng.randrange(50),
                       dup=rng.choice([1, 2]) if cfg['faults'] in ('F2', 'all')
-                      and rng.random() < 0.1 else 0)
+                      and rng.random() < (0.4 if self.boost else 0.1) else 0)
         elif name in ('transpose', 'copy'):
             pass
         elif name == 'align_to':
@@ -306,6 +319,16 @@ class Gen:
             ev.update(fam=rng.randrange(CB.N_TRANS), salt=rng.randrange(100),
                       inp=int(rng.random() < 0.5), twin=int(rng.random() < .4),
                       fault=self._fault(n))
+            if ev['fault'] is not None:
+                # the interesting abort is one that comes after part of the
+                # work is visibly done: a function that zeroes entries,
+                # failing at a later vector, mostly in place
+                if rng.random() < 0.6:
+                    ev['fam'] = rng.choice([3, 5])
+                if n >= 2 and ev['fault'] == 0 and rng.random() < 0.8:
+                    ev['fault'] = rng.randrange(1, n + 1)
+                if rng.random() < 0.5:
+                    ev['inp'] = 1
             mutating_inplace = bool(ev['inp'])
         elif name in ('norm', 'pa'):
             ev.update(inp=int(rng.random() < 0.5), twin=int(rng.random() < .4))
@@ -478,12 +501,16 @@ class Gen:
     # ------------------------------------------------------------- next --
     def next(self, w):
         rng, cfg = self.rng, self.cfg
+        self.boost = bool(w.readers)
         ev = self._next(w)
         if ev.get('fault') is not None or ev.get('unk') or ev.get('f6'):
             # a fault is armed in this event: look at the same table right
             # afterwards (the property's probe, else a read accessor)
             self.after_fault = ev.get('slot')
         k = ev.get('k')
+        if cfg.get('habit') and k in ('op', 'probe') and \
+                ev.get('slot') is not None and rng.random() < 0.7:
+            self.habit_due = ev['slot']
         if k in ('read', 'probe'):
             self.last_obs[ev.get('slot')] = dict(ev)
         elif k == 'op' and (ev.get('inp') or ev.get('name') in (
@@ -499,6 +526,12 @@ class Gen:
         rng, cfg = self.rng, self.cfg
         if not w.pool or (len(w.pool) < 2 and rng.random() < 0.7):
             return self.ev_new(w)
+        if self.habit_due is not None:
+            s, self.habit_due = self.habit_due, None
+            if s < len(w.pool) and cfg['habit'] in cfg['perturb']:
+                return {'k': 'perturb', 'name': cfg['habit'], 'slot': s,
+                        'ax': rng.randrange(2), 'i': rng.randrange(12),
+                        'dst': rng.randrange(8)}
         if self.reobserve is not None:
             s, self.reobserve = self.reobserve, None
             if s in self.last_obs and s < len(w.pool):
